@@ -660,17 +660,46 @@ func checkWrittenValue(p *Prog, r *Roles, res *Result) {
 			}
 			valParam := f.Params[2] // receiver, key, value
 			n, bad := 0, ""
-			for _, g := range withAnon(f) {
-				for _, c := range callsIn(g) {
-					if !isEngineCall(c, "Set", "NewEntry") {
+			// the value operand of an engine write, or of a helper of the adapter all of whose engine writes store
+			// one of its parameters (helper(key, val, ttl) { txn.Set(key, val) / NewEntry(key, val) })
+			valueOperand := func(c ssa.CallInstruction) ssa.Value {
+				if isEngineCall(c, "Set", "NewEntry") {
+					args := c.Common().Args
+					if len(args) >= 2 {
+						if _, isSlice := args[len(args)-1].Type().Underlying().(*types.Slice); isSlice {
+							return args[len(args)-1]
+						}
+					}
+					return nil
+				}
+				h := c.Common().StaticCallee()
+				if h == nil || h.Blocks == nil || h.Pkg != f.Pkg {
+					return nil
+				}
+				pidx := -1
+				for _, hc := range callsIn(h) {
+					if !isEngineCall(hc, "Set", "NewEntry") {
 						continue
 					}
-					args := c.Common().Args
+					args := hc.Common().Args
 					if len(args) < 2 {
 						continue
 					}
-					v := args[len(args)-1]
-					if _, isSlice := v.Type().Underlying().(*types.Slice); !isSlice {
+					prm, ok := p.resolveDeep(args[len(args)-1]).(*ssa.Parameter)
+					if !ok || prm.Parent() != h || (pidx >= 0 && paramIndex(prm) != pidx) {
+						return nil
+					}
+					pidx = paramIndex(prm)
+				}
+				if pidx < 0 || pidx >= len(c.Common().Args) {
+					return nil
+				}
+				return c.Common().Args[pidx]
+			}
+			for _, g := range withAnon(f) {
+				for _, c := range callsIn(g) {
+					v := valueOperand(c)
+					if v == nil {
 						continue
 					}
 					n++
